@@ -830,8 +830,8 @@ func (g *FnGen) obligeClause(kind, label, guard string, c Clause, ctx *EvalCtx, 
 		}
 	}
 	ob := g.oblige(kind, label, guard, t, c.Src, pos)
-	ob.extras = extras
-	g.root().items[ob.item].Extras = extras
+	ob.extras = append(ob.extras, extras...)
+	g.root().items[ob.item].Extras = ob.extras
 	return ob
 }
 
